@@ -888,9 +888,9 @@ func (tr *trans) run() {
 	}
 	tr.vc.assume(app(">", tr.getState(tr.entry, "$next"), "0"))
 	for _, k := range sortedKeys(tr.known) {
-		if strings.HasPrefix(k, "recv.") && strings.HasSuffix(k, ".n") {
-			// the ghost receive history of a channel starts empty at function entry
-			tr.vc.assume(eq(tr.getState(tr.entry, k), "0"))
+		if k == "recv.n" {
+			// the ghost receive history of every channel starts empty at function entry
+			tr.vc.assume(eq(tr.getState(tr.entry, k), "((as const (Array Int Int)) 0)"))
 		}
 	}
 	st := tr.entry.clone()
